@@ -300,7 +300,18 @@ pub fn quiet_panics() {
     if std::env::var_os("YV_SHOW_PANICS").is_some() {
         return; // debugging aid: keep the default hook (message + backtrace)
     }
-    std::panic::set_hook(Box::new(|_| {}));
+    std::panic::set_hook(Box::new(|info| {
+        if let Some(l) = info.location() {
+            *LAST_PANIC.lock().unwrap_or_else(|e| e.into_inner()) = format!("{}:{}", l.file(), l.line());
+        }
+    }));
+}
+
+static LAST_PANIC: std::sync::Mutex<String> = std::sync::Mutex::new(String::new());
+
+/// Source location of the most recent panic (of the subject or of the harness).
+pub fn last_panic_location() -> String {
+    LAST_PANIC.lock().unwrap_or_else(|e| e.into_inner()).clone()
 }
 
 /// All sequences over `alphabet` (by index) of length exactly `len`, as an
